@@ -33,7 +33,7 @@ def encode(sc):
     w.u32(sc["nmsgs"]).u8(sc["flags_fixed"]).u8(sc["flags_rand"]).u8(sc["dst_mode"]).u8(sc["dst_k"])
     w.u8(sc["pass_src"]).u8(sc["bind"])
     w.u16(sc["perturb"]).u16(sc["sleep_us"]).u64(sc["point_mask"])
-    w.u8(sc["gate"]).u8(sc["gate_dst"])
+    w.u8(sc["gate"]).u8(sc["gate_dst"]).u8(sc.get("park_in_stop", 0))
     w.u8(sc["wkind"]).u16(len(sc["wpos"]))
     for k in sc["wpos"]:
         w.u32(k)
@@ -82,6 +82,11 @@ def gen_scenarios(tier, seed):
         pool = rng.choice([2, 3, 4, 8])
         out.append(base(rng, family="notstarted", pool=pool, start_mode=1, n_ext=rng.range(1, 3), n_pool=rng.range(0, 1),
                         nmsgs=200, flags_rand=7, dst_mode=rng.choice([0, 4]), dst_k=0, perturb=rng.choice([0, 100])))
+    # C2: sends issued while every worker is parked inside its stop hook (shutdown in progress): must be refused or run directly
+    for i in range(6 * scale):
+        pool = rng.choice([1, 2, 4, 8])
+        out.append(base(rng, family="stopping", pool=pool, start_mode=rng.choice([0, 0, 1]) if pool > 1 else 0, n_ext=1, nmsgs=50, flags_rand=7,
+                        dst_mode=0, park_in_stop=1))
     # D: sends racing with thread start (STARTING)
     for i in range(8 * scale):
         pool = rng.choice([1, 2, 4, 16])
@@ -131,7 +136,7 @@ def check_log(sc, events, part):
             ts, _tid, kind, aux, a, b, c = e
             if kind == EV_SEND_CALL:
                 cur = a
-                sends[a] = dict(thread=tid, flags=aux, dst=b, rc=None, writes=[], order=pos)
+                sends[a] = dict(thread=tid, flags=aux, dst=b, rc=None, writes=[], order=pos, stopping=bool(c))
             elif kind == EV_SEND_RET:
                 if a in sends:
                     sends[a]["rc"] = c
@@ -152,7 +157,7 @@ def check_log(sc, events, part):
         cl = cbs.get(mid, [])
         sender_is_pool = s["thread"] < 900
         failed_write = any(err != 0 for (_k, _inj, err) in s["writes"])
-        dst_down = dst in never_started
+        dst_down = dst in never_started or s["stopping"]
         skind = "pool" if sender_is_pool else "ext"
         dkind = "pvt" if dst == pool else ("down" if dst_down else ("self" if sender_is_pool and dst == s["thread"] else "real"))
         if rc is None:
